@@ -31,6 +31,7 @@
 From Coq Require Import List Bool Arith Permutation Sorted.
 From Atlas Require Import Plan.SortModel Plan.SortDfs Plan.SortReplay Plan.SortProofs Plan.SortDialect Plan.SortExamples.
 From Atlas Require Import Plan.SortTidbModel Plan.SortTidbProofs gen.Gen_TidbPriority.
+From Atlas Require Import Plan.SortObjModel Plan.SortGenProofs Plan.SortObjProofs Plan.SortObjExamples.
 Import ListNotations.
 
 (** 1. "Plans never fail or loop because of a cycle": for EVERY change list -- any reference
@@ -164,6 +165,78 @@ Theorem C04_tidb_unsafe_class : forall cs c l t tcs from to,
   tidb_order cs = TOk l -> replay l c = None.
 Proof. exact tidb_unsafe_class. Qed.
 
+(** 6. Typed objects (round 5): change sets with PostgreSQL enum types -- AddObject / DropObject next to table changes
+    whose columns use the types (SortObjModel.v: [xchange], [xdependsOn] with the arms AddTable/AddObject,
+    ModifyTable/AddObject (AddColumn, ModifyColumn.To), DropObject/DropTable, DropObject/ModifyTable (DropColumn);
+    IsType = pointer equality; an object change has sort key 0 in DetachCycles, falls through dependencies and
+    detachReferences, DropObject is in SortChanges' drop partition).  [erase_all] is the table-only change set behind
+    an extended one.
+    For EVERY extended change list: where the Go code ignores objects and column types, the extended functions are
+    the table-only ones on the projection ... *)
+Theorem C04_objects_commute :
+  (forall X, xsortMap X = sortMap (erase_all X)) /\
+  (forall X, erase_all (xdetachReferences X) = detachReferences (erase_all X)) /\
+  (forall X, filter xis_obj (xdetachReferences X) = filter xis_obj X) /\
+  (forall x y, xis_obj x = false -> xis_obj y = false -> xdependsOn x y = dependsOn (erase1 x) (erase1 y)).
+Proof. exact (conj xsortMap_erase (conj xdetach_erase (conj xdetach_objs xdep_tables))). Qed.
+
+(** ... the planner terminates (any graph, any use of the types), and the plan is a permutation of what DetachCycles
+    returned: every CREATE TYPE / DROP TYPE and every table creation / drop of the input exactly as often as in the input. *)
+Theorem C04_total_objects : forall X : list xchange, exists l, xplan X = XPOk l.
+Proof. exact xplan_total. Qed.
+
+Theorem C04_once_objects : forall X l, xplan X = XPOk l ->
+  exists d, xDetachCycles X = XDCOk d /\ Permutation d l /\
+    Permutation (flat_map oadds X) (flat_map oadds l) /\ Permutation (flat_map odrops X) (flat_map odrops l) /\
+    Permutation (flat_map adds (erase_all X)) (flat_map adds (erase_all l)) /\
+    Permutation (flat_map drops (erase_all X)) (flat_map drops (erase_all l)).
+Proof. exact xplan_once. Qed.
+
+(** SortChanges as a function of the change type (SortObjModel.gSortChanges): for ANY change type, dependency test and
+    drop test -- if the dependency relation is acyclic on the partitioned input (a rank exists), the result is a
+    permutation in which every dependency stands before its dependent, and, when no non-drop depends on a drop,
+    every drop behind every other change.  (SortDfs.SortChanges_ranked, proved with the three as parameters.) *)
+Theorem C04_SortChanges_generic : forall (A : Type) (dep : A -> A -> bool) (isdrop : A -> bool) (r : A -> nat) (l : list A),
+  let cs := gpartition A isdrop l in
+  NoDup cs ->
+  (forall x y, In x cs -> In y cs -> x <> y -> dep x y = true -> r y < r x) ->
+  exists out, gSortChanges A dep isdrop l = Some out /\ Permutation cs out /\
+    (forall pre x post y, out = pre ++ x :: post -> In y cs -> y <> x -> dep x y = true -> In y pre) /\
+    ((forall x y, In x cs -> In y cs -> isdrop x = false -> x <> y -> dep x y = true -> isdrop y = false) ->
+     forall pre x post y, out = pre ++ x :: post -> isdrop x = false -> In y pre -> isdrop y = false).
+Proof. exact gSortChanges_ranked. Qed.
+
+(** C04_safe with objects: for every change set whose table changes are well-formed (WF of the projection; an object
+    change occurs once) and every consistent catalogue, in both branches of DetachCycles and for every tie-break of
+    its sort.Slice: the plan [out] is a permutation of the detached input in which
+      - every change stands behind every change it depends on -- in particular CREATE TYPE e stands before every
+        CREATE TABLE / ADD COLUMN / ALTER COLUMN TYPE that uses e, DROP TYPE e behind every DROP TABLE with a column
+        of type e and every DROP COLUMN of type e (the four object arms of xdependsOn), and every table / foreign-key
+        dependency as before;
+      - no drop (DROP TABLE, DROP TYPE) stands before a change that is no drop -- so DROP TYPE e also stands behind an
+        ALTER COLUMN that moves a column AWAY from e, for which dependsOn has no arm;
+      - the table projection replays on the reference catalogue (tables and foreign keys), as in C04_safe.
+    [xplan_ok] is that conjunction.  What is NOT proved here: that the type half of the catalogue ([treplay]: a type
+    exists when used, is created once, dropped only when unused) succeeds -- see C04_safe_objects_types below. *)
+Theorem C04_safe_objects_any_tiebreak : forall X c S,
+  XWF X -> consistent c (erase_all X) -> xdetach_spec X S ->
+  exists out, xSortChanges S = Some out /\ xplan_ok S out c.
+Proof. exact xsafe_any_tiebreak. Qed.
+
+Theorem C04_safe_objects : forall X c,
+  XWF X -> consistent c (erase_all X) ->
+  exists S out, xDetachCycles X = XDCOk S /\ xplan X = XPOk out /\ xplan_ok S out c.
+Proof. exact xplan_safe. Qed.
+
+(** A by-product: in the cycle-free branch the order DetachCycles produces is not needed for safety -- ANY order of a
+    well-formed table-only change set that respects every dependsOn edge and keeps the drops behind replays. *)
+Theorem C04_edges_suffice : forall cs c out,
+  WF cs -> consistent c cs -> Permutation cs out ->
+  (forall pre x post y, out = pre ++ x :: post -> In y cs -> y <> x -> dependsOn x y = true -> In y pre) ->
+  (forall pre x post y, out = pre ++ x :: post -> is_drop x = false -> In y pre -> is_drop y = false) ->
+  exists c', replay out c = Some c'.
+Proof. intros cs c out HWF Hc Hp Hd Hb. exact (split_replay_ok out c (edge_split cs c HWF Hc out Hp Hd Hb)). Qed.
+
 Print Assumptions C04_total.
 Print Assumptions C04_total_parts.
 Print Assumptions C04_once.
@@ -180,6 +253,13 @@ Print Assumptions C04_tidb_order.
 Print Assumptions C04_tidb_once.
 Print Assumptions C04_tidb_safe_refuted.
 Print Assumptions C04_tidb_unsafe_class.
+Print Assumptions C04_objects_commute.
+Print Assumptions C04_total_objects.
+Print Assumptions C04_once_objects.
+Print Assumptions C04_SortChanges_generic.
+Print Assumptions C04_safe_objects_any_tiebreak.
+Print Assumptions C04_safe_objects.
+Print Assumptions C04_edges_suffice.
 
 (** Non-vacuity. *)
 (* C04_total / C04_once: a 3-cycle of created tables is planned (6 changes out of 3). *)
@@ -280,3 +360,23 @@ Example C04_tidb_order_ex :
   = TOk [ ModifyTable (des 0) [Other 2]; ModifyTable (des 0) [DropFK (mkFK 5 (cur 0) (cur 2))];
           AddTable (des 1) []; ModifyTable (des 0) [Other 1]; ModifyTable (des 0) [AddFK (mkFK 21 (des 0) (des 1))] ].
 Proof. vm_compute. reflexivity. Qed.
+
+(* round 5 -- enum objects: CREATE TYPE 0 moves to the front, DROP TYPE 1 to the end, the cycle 0 <-> 1 is detached;
+   both halves of the catalogue replay on the plan; the input order fails on the type half *)
+Example C04_safe_objects_ex :
+  XWF ox_cs /\ consistent ox_cat (erase_all ox_cs) /\
+  xsortMap ox_cs = SMCycle /\ xplan ox_cs = XPOk ox_plan /\
+  replay (erase_all ox_plan) ox_cat = Some (kcat [1; 0] [(1, 20, 0); (0, 21, 1)]) /\
+  treplay ox_plan ox_types = Some ([0], [(qcode 0 1, 0); (qcode 0 0, 0)]) /\
+  treplay ox_cs ox_types = None.
+Proof. exact (conj ox_wf (conj ox_cons ox_runs)). Qed.
+
+Example C04_once_objects_ex :
+  flat_map oadds ox_plan = [0] /\ flat_map odrops ox_plan = [1] /\
+  flat_map adds (erase_all ox_plan) = ktabs [1] /\ flat_map drops (erase_all ox_plan) = ktabs [2].
+Proof. vm_compute. repeat split; reflexivity. Qed.
+
+(* C04_SortChanges_generic is the statement SortChanges_ranked at A = change: the generic function is SortChanges *)
+Example C04_SortChanges_generic_ex :
+  gSortChanges change dependsOn is_drop ch_cs = SortChanges ch_cs /\ gSortChanges change dependsOn is_drop c3_cs = SortChanges c3_cs.
+Proof. vm_compute. split; reflexivity. Qed.
